@@ -7,6 +7,7 @@ import Logrange.Generated.C19
 * `reset`                       — empty registry
 * `create|ensure <name> <tags> <flt> <parses 0|1>`, `delete <name>`, `get <name>`
 * `show <limit|none> <offset|none>` — `SHOW PIPES` paging over the model's own (sorted) listing
+* `restart` / `crash`           — clean stop + start / start on what `savePipes` left on disk → `ok <n> <sorted names>` or `refused`
 * `spec.sorted <name>*`         — SPEC: the names sorted in Go string order, duplicates kept
 -/
 open Go Logrange.Registry Driver
@@ -25,28 +26,46 @@ def insertSorted (x : Bytes) : List Bytes → List Bytes
   | y :: ys => if bytesLe x y then x :: y :: ys else y :: insertSorted x ys
 def sortBytes (l : List Bytes) : List Bytes := l.foldr insertSorted []
 
-def step (r : Reg) (toks : List String) : Reg × String :=
+/-- which operations persist the registry, as regenerated from the source -/
+def cfgNow : PCfg :=
+  ⟨Logrange.Generated.C19.createPipeSaves, Logrange.Generated.C19.deletePipeSaves, Logrange.Generated.C19.shutdownSaves⟩
+
+def listingOf (r : Reg) : List Bytes :=
+  (getPipesShape Logrange.Generated.C19.getPipesLibrarySort Logrange.Generated.C19.getPipesIncrementsCnt r).map (·.name)
+
+def regOp (s : PState) (o : Op) : PState × String :=
+  let (s', res) := opStep cfgNow s o; (s', showRes res)
+
+def startOp (s : PState) (o : POp) : PState × String :=
+  -- every stored definition was accepted by newPPipe when it was created; the harness reports a refused start
+  let (s', r) := pstep cfgNow (fun _ => true) s o
+  match r with
+  | none => let ns := listingOf s'.mem
+            (s', if ns.isEmpty then "ok 0" else s!"ok {ns.length} {hexList ns}")
+  | some _ => (s', "refused")
+
+def step (s : PState) (toks : List String) : PState × String :=
   match toks with
   | "getpipes" :: names =>
     let order := names.map (fun n => (⟨unhex n, [], []⟩ : Pipe))
-    (r, hexList ((getPipesShape Logrange.Generated.C19.getPipesLibrarySort Logrange.Generated.C19.getPipesIncrementsCnt order).map (·.name)))
-  | "spec.sorted" :: names => (r, hexList (sortBytes (names.map unhex)))
-  | ["reset"] => ([], "ok")
-  | ["create", n, t, f, ok] =>
-    let (r', res) := Logrange.Registry.step r (.create ⟨unhex n, unhex t, unhex f⟩ (ok == "1")); (r', showRes res)
-  | ["ensure", n, t, f, ok] =>
-    let (r', res) := Logrange.Registry.step r (.ensure ⟨unhex n, unhex t, unhex f⟩ (ok == "1")); (r', showRes res)
-  | ["delete", n] => let (r', res) := Logrange.Registry.step r (.delete (unhex n)); (r', showRes res)
-  | ["get", n] => let (r', res) := Logrange.Registry.step r (.get (unhex n)); (r', showRes res)
+    (s, hexList (listingOf order))
+  | "spec.sorted" :: names => (s, hexList (sortBytes (names.map unhex)))
+  | ["reset"] => (⟨[], none⟩, "ok")
+  | ["create", n, t, f, ok] => regOp s (.create ⟨unhex n, unhex t, unhex f⟩ (ok == "1"))
+  | ["ensure", n, t, f, ok] => regOp s (.ensure ⟨unhex n, unhex t, unhex f⟩ (ok == "1"))
+  | ["delete", n] => regOp s (.delete (unhex n))
+  | ["get", n] => regOp s (.get (unhex n))
+  | ["restart"] => startOp s .restart
+  | ["crash"] => startOp s .crash
   | ["show", lim, offs] =>
     match optInt lim, optInt offs with
     | some l, some o =>
       -- the listing of the current registry; the registry list is in reverse insertion order, any order does
-      let names := (getPipesShape Logrange.Generated.C19.getPipesLibrarySort Logrange.Generated.C19.getPipesIncrementsCnt r).map (·.name)
+      let names := listingOf s.mem
       (match showPipes names l o with
-       | none => (r, "rej")
-       | some ns => (r, if ns.isEmpty then s!"ok {names.length}" else s!"ok {names.length} {hexList ns}"))
-    | _, _ => (r, "bad-op")
-  | _ => (r, "bad-op")
+       | none => (s, "rej")
+       | some ns => (s, if ns.isEmpty then s!"ok {names.length}" else s!"ok {names.length} {hexList ns}"))
+    | _, _ => (s, "bad-op")
+  | _ => (s, "bad-op")
 
-def main (args : List String) : IO Unit := Driver.run step ([] : Reg) args
+def main (args : List String) : IO Unit := Driver.run step (⟨[], none⟩ : PState) args
